@@ -21,6 +21,9 @@ def optTok (o : Option Token) : R Token := match o with | some t => .ok t | none
 /-- a bool flag that is still None where a bool is needed -/
 def optBool (o : Option Bool) : R Bool := match o with | some b => .ok b | none => .error .TypeError
 
+/-- `len(res)` etc. on a result that is still None -/
+def optRes (o : Option Res) : R Res := match o with | some r => .ok r | none => .error .TypeError
+
 def truthyOptNat (o : Option Nat) : Bool := match o with | some n => n != 0 | none => false
 def truthyOptInt (o : Option Int) : Bool := match o with | some n => n != 0 | none => false
 
@@ -66,6 +69,15 @@ def unpack3 (l : List Nat) : R (Nat × Nat × Nat) := match l with | [a, b, c] =
 /-- `tokens[k] = v` for `k ≥ 0` -/
 def toksSet (l : List Token) (k : Nat) (v : Token) : R (List Token) :=
   if k < l.length then .ok (l.set k v) else .error .IndexError
+
+/-- `tokens[-1] = v` -/
+def toksSetLast (l : List Token) (v : Token) : R (List Token) :=
+  match l.reverse with
+  | [] => .error .IndexError
+  | _ :: revInit => .ok (revInit.reverse ++ [v])
+
+/-- `sorted(xs)` for a list of ints -/
+def sortedNat (xs : List Nat) : List Nat := xs.mergeSort (· ≤ ·)
 
 /-- `str(n)` for an int -/
 def strOfInt (n : Int) : Token := (toString n).toList
@@ -150,5 +162,102 @@ structure FoldDt where
 def FoldDt.tzname (d : FoldDt) : Option Token := if d.fold = 0 then d.n0 else d.n1
 /-- `tz.enfold(dt, fold=k)` -/
 def FoldDt.enfold (d : FoldDt) (k : Nat) : FoldDt := { d with fold := k }
+
+/-! ### `parserinfo.__init__` -/
+
+/-- the class attributes of a `parserinfo` (sub)class: word lists as groups (a plain word = a group of one) -/
+structure InfoTables where
+  JUMP : List (List String)
+  WEEKDAYS : List (List String)
+  MONTHS : List (List String)
+  HMS : List (List String)
+  AMPM : List (List String)
+  UTCZONE : List (List String)
+  PERTAIN : List (List String)
+  TZOFFSET : List (Token × Int)
+  deriving Repr, Inhabited
+
+/-- what an instance sees before `__init__` has run: the class attributes `UTCZONE` (as written) and `TZOFFSET` -/
+def infoOfClass (t : InfoTables) : Info :=
+  { jump := [], weekdays := [], months := [], hms := [], ampm := [], utczoneKeys := [], pertain := [],
+    UTCZONE := t.UTCZONE.flatten.map tk, tzoffsets := t.TZOFFSET, dayfirst := false, yearfirst := false, year := 0, century := 0 }
+
+/-- the stock class -/
+def stockTables : InfoTables :=
+  { JUMP := Gen.PI_JUMP.map ([·]), WEEKDAYS := Gen.PI_WEEKDAYS, MONTHS := Gen.PI_MONTHS, HMS := Gen.PI_HMS, AMPM := Gen.PI_AMPM,
+    UTCZONE := Gen.PI_UTCZONE.map ([·]), PERTAIN := Gen.PI_PERTAIN.map ([·]), TZOFFSET := [] }
+
+/-! ### `_build_tzinfo`: the `tzinfos` argument and what it hands back -/
+
+/-- the object `_build_tzinfo` returns -/
+inductive TzObj where
+  | data (d : TzData)                       -- the tzinfo instance (or None) the user's `tzinfos` gave, as it is
+  | tzstr (s : Token)                       -- `tz.tzstr(s)`
+  | fixed (name : Option Token) (n : Int)   -- `tz.tzoffset(name, n)`
+  deriving Repr, DecidableEq, Inhabited
+
+/-- `callable(tzinfos)` -/
+def tziCallable : TzInfos → Bool
+  | .callable _ _ => true
+  | _ => false
+
+/-- what a user value is when it arrives: the `raises` marker = the user's function raises ValueError -/
+def tziArrive (d : TzData) : R TzData := if d = .raises then .error .ValueError else .ok d
+
+/-- `tzinfos(tzname, tzoffset)` -/
+def tziCall (tzi : TzInfos) (name : Option Token) (off : Option Int) : R TzData :=
+  match tzi with
+  | .callable entries dflt =>
+    match lookupKey entries name with
+    | some d => tziArrive d
+    | none => match dflt with
+      | .data d => tziArrive d
+      | .echoOffset => match off with | some n => .ok (.int n) | none => .ok .noneVal
+  | _ => .error .TypeError
+
+/-- `tzinfos.get(tzname)` -/
+def tziGet (tzi : TzInfos) (name : Option Token) : R TzData :=
+  match tzi with
+  | .mapping entries => tziArrive ((lookupKey entries name).getD .noneVal)
+  | _ => .error .AttributeError
+
+def isTzinfoObj : TzData → Bool | .obj _ => true | _ => false
+def isText : TzData → Bool | .str _ => true | _ => false
+def isInt : TzData → Bool | .int _ => true | _ => false
+
+/-- `tz.tzstr(tzdata)` -/
+def mkTzstr (d : TzData) : R TzObj :=
+  match d with
+  | .str s => (tzstrCtor s).map (fun _ => TzObj.tzstr s)
+  | _ => .error .TypeError
+
+/-- `tz.tzoffset(tzname, tzdata)` -/
+def mkTzoffset (name : Option Token) (d : TzData) : R TzObj :=
+  match d with
+  | .int n => if offsetOk n then .ok (.fixed name n) else .error .OverflowError
+  | _ => .error .TypeError
+
+/-- the model's descriptor of `naive.replace(tzinfo=<that object>)` for the parsed name -/
+def descrOf (name : Option Token) : TzObj → TzDescr
+  | .data d => .viaTzinfos d name
+  | .tzstr s => .viaTzinfos (.str s) name
+  | .fixed nm n => .fixed nm n
+
+/-! ### the datetime `parser.parse` returns, as far as the model speaks about it -/
+
+/-- wall time + what its `tzinfo` is -/
+structure ADt where
+  dt : DT
+  tz : FinalTz
+  deriving Repr, DecidableEq, Inhabited
+
+/-- `self._build_tzaware(ret, res, tzinfos)` — NOT translated: the hand model's cascade `PM.buildTzaware` (zone rows put the
+    zone; the nothing-found row keeps the datetime; the unknown-name row warns and strips the tzinfo) -/
+def buildTzawareStandIn (tznames : List Token) (tzi : TzInfos) (ret : ADt) (res : Res) : R ADt :=
+  match buildTzaware tznames tzi res with
+  | .ok .naive => .ok ret
+  | .ok (.naiveWarn n) => .ok { ret with tz := .noneWarn n }
+  | .ok z => .ok { ret with tz := .zone z }
+  | .error e => .error e
 
 end PPy
